@@ -284,7 +284,7 @@ type streamsRec struct {
 func (t *streamsRec) install() {
 	vhook.SetSink(func(e vhook.Event) {
 		keep := strings.HasPrefix(e.Ev, "mrsw.") || strings.HasPrefix(e.Ev, "ls.") ||
-			strings.HasPrefix(e.Ev, "reap.") || strings.HasPrefix(e.Ev, "h.")
+			e.Ev == "reap.mutate" || e.Ev == "reap.done" || strings.HasPrefix(e.Ev, "h.") // other reap.* hooks belong to C07
 		if !keep {
 			return
 		}
